@@ -35,6 +35,8 @@ POOLS = [
     dict(a="A", a2="a", o1="O1", o2="o1", b="B", p="b", x="X"),             # case variants
     dict(o1="x", o2="y", a="a", a2="a_x", p="p_x", b="p", x="p_x_"),        # parameter / object / fluent prefixes
     dict(b="dnf_fake_goal", p="cerm", a="cerm_0", a2="a_0_1", o1="o1_", o2="o1__", x="x"),
+    dict(a="act", a2="act_0", o1="o", o2="o_0", x="x"),                        # a later action named like a generated variant
+    dict(a="act_0", a2="act", o1="o_0", o2="o", x="x"),
 ]
 _DEFAULT_NAMES = dict(T="T", S="S", o1="o1", o2="o2", b="b", p="p", w="w", u="u", n="n", a="a", a2="a2")
 for _p in POOLS:
